@@ -9,10 +9,10 @@ descriptor wrapper constructors (`Wsh::new`, `Sh::new`, `Sh::new_wsh`, `Bare::ne
 
 The model is the code that exists: same order of checks, same gates (`max_script_size <
 usize::MAX`), same early `Ok` for unsatisfiable fragments, same exec-stack formula, and the
-same OMISSIONS (`check_global_consensus_validity` looks at `pk_k`/`multi` keys but not at `pk_h`
-keys; `new_sortedmulti` checks nothing; `TapTree::leaf` + `Tr::new` check nothing on the leaf;
-the wsh/sh/bare wrappers never call `validate`).  `top_level_type_check` has its base-type test
-again (fix 8a19a019).
+same deliberate exception (`Sh::new` validates with `Legacy::CONSENSUS` but leaves `d:`/`or_i`
+allowed).  Fixes followed: 8a19a019 (base-type test in `top_level_type_check`), 4cd8ebfa (`pk_h`
+keys checked), a3413640 (`new_sortedmulti` runs the checks), 2d0df974 (`Tr::new` validates
+leaves), f6816493 (`Wsh::new`/`Sh::new` call `validate`).
 No imports beyond the shared models: linked into the driver.
 -/
 import MsVerif.Model.Ast
@@ -379,19 +379,19 @@ def checkPk : Ctx → KeyKind → Bool
   | .segwitv0, k => k != .uncompressed && k != .xonly
   | .tap, k => k != .uncompressed
 
-/-- step 1 of `check_global_consensus_validity`: "check the node first" (note that `pk_h`
-keys are not looked at) -/
+/-- step 1 of `check_global_consensus_validity`: "check the node first" (`pk_h` keys are
+checked like `pk_k` keys since fix 4cd8ebfa) -/
 def nodeChecked (ctx : Ctx) (K : KeyInfo) (node : Ms) : Bool :=
   match ctx with
   | .tap =>
     (match node with
-     | .pkK k => checkPk .tap (K.kind k)
+     | .pkK k | .pkH k => checkPk .tap (K.kind k)
      | .multiA _ ks | .sortedMultiA _ ks => ks.all fun k => checkPk .tap (K.kind k)
      | .multi _ _ | .sortedMulti _ _ => false
      | _ => true)
   | _ =>
     (match node with
-     | .pkK k => checkPk ctx (K.kind k)
+     | .pkK k | .pkH k => checkPk ctx (K.kind k)
      | .multi _ ks | .sortedMulti _ ks => ks.all fun k => checkPk ctx (K.kind k)
      | .multiA _ _ | .sortedMultiA _ _ => false
      | _ => true)
@@ -458,14 +458,27 @@ inductive Entry
   | msSane               -- `Miniscript::from_str`, `decode`
   | msConsensus          -- `from_str_with_validation_params(_, &Ctx::CONSENSUS)`, `decode_consensus`
   | msInsane             -- `from_str_insane`
-  | wrapper              -- `Wsh::new` / `Sh::new` / `Bare::new` (by context), `Descriptor::new_*`
+  | wrapper              -- `Wsh::new` / `Sh::new` / `Bare::new` (by context), `Descriptor::new_*`, `*::new_sortedmulti`
   | descFromStr          -- `Descriptor::from_str` of `wsh(..)`, `sh(..)`, bare, `tr(K,leaf)`
   | trFromStr            -- `Tr::from_str` (leaf validated with `Tap::CONSENSUS` only)
-  | trNew                -- `TapTree::leaf` + `Tr::new`: no check on the leaf
+  | trNew                -- `TapTree::leaf` + `Tr::new`: leaf validated with `Tap::CONSENSUS`
   deriving DecidableEq, Repr
 
 /-- `from_str_insane`'s parameters -/
 def Ctx.INSANE (ctx : Ctx) : ValidationParams := { ctx.CONSENSUS with allowRawPkh := false }
+
+/-- the parameters `Sh::new` validates with: `Legacy::CONSENSUS` except that `d:` and `or_i`
+stay allowed ("have always been accepted inside `sh()`") -/
+def SH_PARAMS : ValidationParams :=
+  { Ctx.CONSENSUS .legacy with allowDupIf := true, allowOrI := true }
+
+/-- `Wsh::new` / `Sh::new` / `Bare::new` after `top_level_checks` (fix f6816493) -/
+def wrapperValidate (env : KeyEnv) (K : KeyInfo) (ctx : Ctx) (ms : Ms) : Bool :=
+  match ctx with
+  | .segwitv0 => isOk (validate env K .segwitv0 (Ctx.CONSENSUS .segwitv0) ms)
+  | .legacy => isOk (validate env K .legacy SH_PARAMS ms)
+  | .tap => isOk (validate env K .tap (Ctx.CONSENSUS .tap) ms)   -- `Tr::new` on a one-leaf tree
+  | .bare => true
 
 def accepts (env : KeyEnv) (K : KeyInfo) (ctx : Ctx) (e : Entry) (ms : Ms) : Bool :=
   constructed env K ctx ms &&
@@ -474,16 +487,17 @@ def accepts (env : KeyEnv) (K : KeyInfo) (ctx : Ctx) (e : Entry) (ms : Ms) : Boo
   | .msSane => isOk (validate env K ctx ctx.SANE ms)
   | .msConsensus => isOk (validate env K ctx ctx.CONSENSUS ms)
   | .msInsane => isOk (validate env K ctx ctx.INSANE ms)
-  | .wrapper => topLevelChecks K ctx ms
+  | .wrapper => topLevelChecks K ctx ms && wrapperValidate env K ctx ms
   | .descFromStr =>
     match ctx with
     | .tap => isOk (validate env K ctx ctx.CONSENSUS ms) && isOk (validate env K ctx ctx.SANE ms)
-    | _ => topLevelChecks K ctx ms
+    | _ => topLevelChecks K ctx ms && wrapperValidate env K ctx ms   -- `from_tree` = `Self::new`
   | .trFromStr => isOk (validate env K ctx ctx.CONSENSUS ms)
-  | .trNew => true
+  | .trNew => isOk (validate env K ctx ctx.CONSENSUS ms)   -- fix 2d0df974 (ctx = tap)
 
-/-- `Wsh::new_sortedmulti` / `Sh::new_sortedmulti` / `Sh::new_wsh_sortedmulti`: the
-`Threshold<Pk, 20>` exists, nothing else is checked -/
-def acceptsSortedMulti (k : Nat) (ks : List Key) : Bool := validateKN MAX_PUBKEYS_PER_MULTISIG k ks.length
+/-- `Wsh::new_sortedmulti` / `Sh::new_sortedmulti` / `Sh::new_wsh_sortedmulti` (fix a3413640):
+`Threshold<Pk, 20>` must exist, then `from_ast(Terminal::SortedMulti)` and `Self::new` -/
+def acceptsSortedMulti (env : KeyEnv) (K : KeyInfo) (ctx : Ctx) (k : Nat) (ks : List Key) : Bool :=
+  validateKN MAX_PUBKEYS_PER_MULTISIG k ks.length && accepts env K ctx .wrapper (.sortedMulti k ks)
 
 end MsVerif
